@@ -128,13 +128,17 @@ def run_case(I, flags, seq, limit, schedule, persistent, values_mode, getter):
         e.notes['run'] = run
         e.notes['tl'] = tl
         e.notes['clock'] = clk.instants
-        return getattr(run.solver, getter)()
-    E = S.Engine(max_paths=4096, timeout=600)
-    return E, E.explore(body)
+        return getattr(run.solver, getter)() if getter else None
+    E = S.Engine(max_paths=600, timeout=300)
+    try:
+        return E, E.explore(body), True
+    except S.Inconclusive as ex:
+        # a run that forks over matchings after a failed solve: keep what was explored
+        return E, getattr(ex, 'paths', []), False
 
 
 def count_solves(I, flags, seq):
-    E, paths = run_case(I, flags, seq, False, {}, None, 'none', 'get_results')
+    E, paths, _ = run_case(I, flags, seq, False, {}, None, 'none', None)
     if not paths or paths[0].exc is not None:
         return None
     return len(paths[0].notes['run'].snaps)
@@ -166,9 +170,14 @@ def run_task(task):
     getters = ['get_results', 'get_results_long']
     samples = []
     for si, (schedule, persistent, mode) in enumerate(schedules):
+        if len(res['cex']) >= 12:
+            break      # enough counterexamples from this task; the rest of its schedules are skipped
         getter = getters[si % 2]
-        E, paths = run_case(I, flags, seq, limit, schedule, persistent, mode, getter)
+        E, paths, complete = run_case(I, flags, seq, limit, schedule, persistent, mode, getter)
         res['paths'] += len(paths)
+        if not complete:
+            res['obligations'] += 1
+            res['unknown'] += 1
         res['queries'] += E.stats['solver_queries']
         res['solver_time'] += E.stats['solver_time']
         for p in paths:
